@@ -148,9 +148,10 @@ def c10_burn_all (t : Tr) : Bool :=
        t.post.bank.get ts t.env.denom == t.pre.bank.get ts t.env.denom &&
        t.post.tsBal.eqv t.pre.tsBal &&
        t.post.csrs.all (fun p =>
-         match t.pre.getCSR p.1 with
-         | some r => p.2.txs == r.txs && p.2.revenue == r.revenue
-         | none => p.2.txs == 0 && p.2.revenue == 0)
+         match t.post.getCSR p.1 with
+         | none => true
+         | some r' =>
+           r'.txs == ((t.pre.getCSR p.1).map (·.txs)).getD 0 && r'.revenue == ((t.pre.getCSR p.1).map (·.revenue)).getD 0)
      | _, _ => true)
   | _ => true
 
@@ -196,7 +197,10 @@ def c16_csr_inv (t : Tr) : Bool := regInvB t.post
 /-- stated directly: two different NFTs never share a contract -/
 def c16_at_most_one_nft (t : Tr) : Bool :=
   t.post.csrs.all (fun p => t.post.csrs.all (fun q =>
-    p.1 == q.1 || p.2.contracts.all (fun c => !q.2.contracts.contains c)))
+    p.1 == q.1 ||
+    (match t.post.getCSR p.1, t.post.getCSR q.1 with
+     | some r, some r' => r.contracts.all (fun c => !r'.contracts.contains c)
+     | _, _ => true)))
 
 /-- does a log of this receipt, emitted by the Turnstile, with a well-formed payload naming a code-bearing
 contract, account for the index entry `c ↦ n`? -/
